@@ -76,9 +76,7 @@ C10Wide(i) ==
                     Cmd("require", i, "", 0, "good2", "unq"),
                     Cmd("require", i, "", 0, "good", "imp") }
 C10Two(i) ==
-  { Cmd("def", i, "x", 1, "", ""),      Cmd("failexpr", i, "y", 1, "", ""),
-    Cmd("bump", i, "good", 0, "", ""),  Cmd("call", i, "f", 0, "", ""),
-    Cmd("deffn", i, "f", 0, "", "") }
+  { Cmd("def", i, "x", 1, "", ""),      Cmd("bump", i, "good", 0, "", "") }
   \cup { Cmd("require", i, "", 0, m, "plain") : m \in {"good", "broken", "missing"} }
 C11Cmds(i) ==
   { Cmd("require", i, "", 0, m, Forms[f]) : m \in ModIds, f \in DOMAIN Forms }
